@@ -475,7 +475,7 @@ func runC08(w *W) {
 					visit(o, name+" from "+ctx, true, false)
 				}
 				n := []int{-13, -12, -11, -5, -4, -3, -2, -1, 1, 2, 3, 4, 11, 12, 13, -24, 24}[d.J%17]
-				if d.D == 1 || prev == nil || d.J%16 == 0 {
+				if d.D == 1 || prev == nil || (w.Thorough() && d.J%16 == 0) {
 					if y2 := d.Y + n/12 - 2; y2 >= 1 && d.Y+n/12+2 <= 9998 {
 						nav(fmt.Sprintf("SolarMonth.Next(%d)", n), func() interface{} { return calendar.NewSolarMonthFromYm(d.Y, d.M).Next(n) })
 						nav(fmt.Sprintf("Solar.NextMonth(%d)", n), func() interface{} { return s.NextMonth(n) })
@@ -495,7 +495,7 @@ func runC08(w *W) {
 						nav(fmt.Sprintf("LunarYear.Next(%d)", n), func() interface{} { return calendar.NewLunarYear(d.Y).Next(n) })
 					}
 				}
-				if d.J%4 == 1 && d.J+40 <= r1JDN(9998, 12, 31) && d.J-40 >= jdnFirst {
+				if (d.J%8 == 1 || (w.Thorough() && d.J%4 == 1)) && d.J+40 <= r1JDN(9998, 12, 31) && d.J-40 >= jdnFirst {
 					nav(fmt.Sprintf("Lunar.Next(%d)", n), func() interface{} { return l.Next(n) })
 					nav(fmt.Sprintf("Solar.NextDay(%d)", n), func() interface{} { return s.NextDay(n) })
 					nav(fmt.Sprintf("Solar.NextHour(%d)", n), func() interface{} { return s.NextHour(n) })
